@@ -15,17 +15,17 @@ import tempfile
 from harness import core, gen, histcheck, isoapi
 from harness.props import c01
 
-LEAN_MODULES = ['Pycdlib.Props.C03', 'Pycdlib.Props.C19', 'Pycdlib.Props.C10']
+LEAN_MODULES = ['Pycdlib.Props.C03', 'Pycdlib.Props.C19', 'Pycdlib.Props.C10', 'Pycdlib.Props.C03Dir', 'Pycdlib.Props.C03Pt']
 THEOREMS = ['Pycdlib.decDR_encDR', 'Pycdlib.decPTR_encPTR', 'Pycdlib.dr_date_parse_record', 'Pycdlib.Udf.tag_valid',
-            'Pycdlib.decBoth32_both32', 'Pycdlib.decBoth16_both16']
+            'Pycdlib.decBoth32_both32', 'Pycdlib.decBoth16_both16', 'Pycdlib.DirBytes.dir_roundtrip', 'Pycdlib.PtBytes.parse_render']
 PARTIAL = {
-    'remaster_fix_partial': 'proved: decode∘encode = id for directory records, path table records, dates and tags (parsing what was '
-    'recorded loses nothing at record level). Not proved: that parsing reconstructs an edit state whose layout equals the original '
+    'remaster_fix_partial': 'proved: decode∘encode = id for directory records, path table records, dates and tags, and for whole directory extents '
+    'and whole path tables (parsing what was recorded loses nothing, at record level and at extent level). Not proved: that parsing reconstructs an edit state whose layout equals the original '
     '(Parse.state); that part is decided by the byte-for-byte oracle on every generated image, twice.',
 }
 TRUSTED = ['which bytes are "volume modification timestamp fields" (masked): offset 830..846 of each PVD/SVD sector']
 ASSUMPTIONS = ['time.time is frozen to the same instant for all writes, so only the fields pycdlib documents as refreshed may differ']
-RULE = c01.RULE + '; every image is opened and written twice'
+RULE = c01.RULE + '; every image is opened and written twice; plus volume-descriptor field grid, 10 time zones x 3 flavours, bootable / hybrid images (18)'
 LEVEL_TEXT = ('Record-level codec fixpoints are Lean theorems; the image-level fixpoint is decided by re-mastering every generated image '
               'twice and comparing all bytes outside the volume-modification date fields.')
 LEVEL_NOTE = 'Trusted: Lean kernel for the codec theorems; harness for the byte comparison.'
@@ -195,8 +195,123 @@ def stepping_clock_case(ctx):
             ctx.violation('C05.pvd-copies/modification-date-race', 'an image with three PVD copies written while the clock advances cannot be opened: %r' % e, rp)
 
 
+def tz_cases(ctx):
+    """images mastered while the process is in a far-east / far-west / fractional time zone: every recorded date carries
+    an offset from GMT (-48 .. +56 quarter hours); write(open(img)) == img in the same zone and in UTC"""
+    import time
+    import pycdlib
+    zones = ['UTC', 'LINT-14', 'XXX-13:45', 'XXX-13', 'AAA+12', 'BBB+11:30', 'NPT-5:45', 'IST-5:30', 'NST+3:30', 'CCC-12:45']
+    old = os.environ.get('TZ')
+    try:
+        for tz in zones:
+            for flavour in ({'rock_ridge': '1.09', 'joliet': 3}, {'udf': '2.60', 'rock_ridge': '1.12'}, {'interchange_level': 4, 'xa': True}):
+                rp = {'kind': 'tz', 'tz': tz, 'new': flavour}
+                os.environ['TZ'] = tz
+                time.tzset()
+                rr = {'rr_name': 'x'} if flavour.get('rock_ridge') else {}
+                with isoapi.frozen_time():
+                    iso = pycdlib.PyCdlib()
+                    iso.new(vol_expire_date=1700000000.0, **flavour)
+                    iso.add_directory('/D', **({'rr_name': 'd'} if rr else {}), **({'joliet_path': '/d'} if flavour.get('joliet') else {}),
+                                      **({'udf_path': '/d'} if flavour.get('udf') else {}))
+                    iso.add_fp(io.BytesIO(b'tz'), 2, '/D/X.;1', **rr, **({'joliet_path': '/d/x'} if flavour.get('joliet') else {}),
+                               **({'udf_path': '/d/x'} if flavour.get('udf') else {}))
+                    out = io.BytesIO()
+                    iso.write_fp(out)
+                    iso.close()
+                orig = out.getvalue()
+                ctx.count(key=('tz', tz, tuple(sorted(flavour))), nontrivial=tz != 'UTC', kind='tz')
+                for again_tz in (tz, 'UTC'):
+                    os.environ['TZ'] = again_tz
+                    time.tzset()
+                    try:
+                        with isoapi.frozen_time():
+                            g = pycdlib.PyCdlib()
+                            g.open_fp(io.BytesIO(orig))
+                            out2 = io.BytesIO()
+                            g.write_fp(out2)
+                            g.close()
+                    except Exception as e:  # noqa
+                        ctx.violation('C05.tz/remaster-fails', 'image mastered with TZ=%s cannot be re-mastered with TZ=%s: %r' % (tz, again_tz, e), rp)
+                        continue
+                    d = first_diff(mask(orig), mask(out2.getvalue()))
+                    if d >= 0:
+                        ctx.violation('C05.tz/remaster-differs', 'image mastered with TZ=%s: write(open(img)) under TZ=%s differs at byte %d (sector %d, offset %d): %s -> %s'
+                                      % (tz, again_tz, d, d // 2048, d % 2048, orig[d - 6:d + 2].hex(), out2.getvalue()[d - 6:d + 2].hex()), rp)
+    finally:
+        if old is None:
+            os.environ.pop('TZ', None)
+        else:
+            os.environ['TZ'] = old
+        time.tzset()
+
+
+def boot_cases(ctx):
+    """bootable and hybrid images (El Torito with one / two / three sections of different sizes, boot info table, isohybrid
+    MBR, EFI, EFI + Mac, unusual geometry and partition offset): write(open(img)) == img, twice"""
+    import pycdlib
+    rng = ctx.rng
+    hybrids = [None, {}, {'efi': True}, {'mac': True}, {'geometry_sectors': 17, 'geometry_heads': 9, 'part_entry': 4, 'mbr_id': 0xdeadbeef},
+               {'mac': True, 'geometry_sectors': 63, 'geometry_heads': 255, 'part_offset': 1}]
+    for flavour in ({}, {'rock_ridge': '1.09', 'joliet': 3}, {'udf': '2.60'}):
+        for hy in hybrids:
+            nsec = 1 if hy is None or not (hy.get('efi') or hy.get('mac')) else (3 if hy.get('mac') else 2)
+            if hy is None:
+                nsec = rng.choice([1, 2, 3])
+            rp = {'kind': 'boot', 'new': flavour, 'hybrid': hy}
+            with isoapi.frozen_time():
+                iso = pycdlib.PyCdlib()
+                try:
+                    iso.new(**flavour)
+                    sizes = [2048, rng.choice([4096, 10240]), rng.choice([6144, 40960])][:nsec]
+                    for k, n in enumerate(sizes):
+                        nm = '/%s.;1' % ['ISOLINUX', 'EFIBOOT', 'MACBOOT'][k]
+                        kw = {'rr_name': nm[1:-3].lower()} if flavour.get('rock_ridge') else {}
+                        if flavour.get('joliet'):
+                            kw['joliet_path'] = nm[:-3].lower()
+                        iso.add_fp(io.BytesIO(isoapi.isolinux_boot(n, 0x11 * (k + 1))), n, nm, **kw)
+                        ekw = {'rr_bootcatname': 'boot.cat'} if (k == 0 and flavour.get('rock_ridge')) else {}
+                        if k == 0:
+                            iso.add_eltorito(nm, boot_load_size=4, boot_info_table=(hy is None and rng.random() < 0.5), **ekw)
+                        else:
+                            iso.add_eltorito(nm, efi=True, boot_load_size=[None, 8, 20][k])
+                    iso.add_fp(io.BytesIO(b'z' * 5000), 5000, '/ZDATA.;1', **({'rr_name': 'zdata'} if flavour.get('rock_ridge') else {}))
+                    if hy is not None:
+                        iso.add_isohybrid(**hy)
+                    out = io.BytesIO()
+                    iso.write_fp(out)
+                except Exception as e:  # noqa
+                    if isoapi.exc_class(e) != 'invalidInput':
+                        ctx.violation('C05.boot/build-raises', 'building %s / %s raised %r' % (flavour, hy, e), rp)
+                    continue
+                finally:
+                    iso.close()
+            orig = out.getvalue()
+            ctx.count(key=('boot', tuple(sorted(flavour)), str(hy), nsec), nontrivial=True, kind='boot')
+            cur = orig
+            for gen_no in (1, 2):
+                try:
+                    with isoapi.frozen_time():
+                        g = pycdlib.PyCdlib()
+                        g.open_fp(io.BytesIO(cur))
+                        o2 = io.BytesIO()
+                        g.write_fp(o2)
+                        g.close()
+                except Exception as e:  # noqa
+                    ctx.violation('C05.boot/remaster-fails', 're-mastering (%d) of %s / %s fails: %r' % (gen_no, flavour, hy, e), rp)
+                    break
+                d = first_diff(mask(cur), mask(o2.getvalue()))
+                if d >= 0:
+                    ctx.violation('C05.boot/remaster-differs', 're-mastering (%d) of a bootable image (%s, hybrid %s, %d sections) differs at byte %d (sector %d, offset %d)'
+                                  % (gen_no, flavour, hy, nsec, d, d // 2048, d % 2048), rp)
+                    break
+                cur = o2.getvalue()
+
+
 def run(ctx):
     vd_field_cases(ctx)
+    tz_cases(ctx)
+    boot_cases(ctx)
     stepping_clock_case(ctx)
     c01.run(ctx, focus='C05', post=post, n_quick=200, n_thorough=5000, force={'duppvd': True})
 
@@ -204,6 +319,12 @@ def run(ctx):
 def replay(ctx, obj):
     if obj.get('replay', obj).get('kind') == 'stepping-clock':
         stepping_clock_case(ctx)
+        return [v['signature'] for v in ctx.violations]
+    if obj.get('replay', obj).get('kind') == 'boot':
+        boot_cases(ctx)
+        return [v['signature'] for v in ctx.violations]
+    if obj.get('replay', obj).get('kind') == 'tz':
+        tz_cases(ctx)
         return [v['signature'] for v in ctx.violations]
     if obj.get('replay', obj).get('kind') == 'vd-fields':
         vd_field_cases(ctx)
